@@ -33,13 +33,13 @@ func (p *PreferenceReversal) Spec_Apply(
 	props *model.BiasProps,
 	listener *model.BiasListener,
 ) *model.BiasedResult {
-	ordering, condition := parseProps(props)
-	resolver := criteria_ordering.FetchOrderingResolver(&p.orderingResolvers, ordering)
+	ordering, condition := Spec_parseProps(props)
+	resolver := criteria_ordering.Spec_FetchOrderingResolver(&p.orderingResolvers, ordering)
 	sortedCriteria := resolver.OrderCriteria(current, props, listener)
-	splitted := condition.SplitCriteriaByOrdering(sortedCriteria)
-	criteriaToReverse := getCriteriaToReverse(splitted.Left, original, current)
-	updatedAlternatives := updateAlternativesWithReversedCriteriaValues(criteriaToReverse, current)
-	result := prepareReverseResult(criteriaToReverse, updatedAlternatives)
+	splitted := condition.Spec_SplitCriteriaByOrdering(sortedCriteria)
+	criteriaToReverse := Spec_getCriteriaToReverse(splitted.Left, original, current)
+	updatedAlternatives := Spec_updateAlternativesWithReversedCriteriaValues(criteriaToReverse, current)
+	result := Spec_prepareReverseResult(criteriaToReverse, updatedAlternatives)
 	return &model.BiasedResult{
 		DMP: &model.DecisionMakingParams{
 			NotConsideredAlternatives: *updatedAlternatives.notConsideredAlternatives,
@@ -71,8 +71,8 @@ func Spec_prepareReverseResult(
 }
 
 func Spec_parseProps(props *model.BiasProps) (*criteria_ordering.CriteriaOrdering, *criteria_splitting.CriteriaSplitCondition) {
-	ordering := criteria_ordering.Parse(props)
-	splittingProps := criteria_splitting.Parse(props)
+	ordering := criteria_ordering.Spec_Parse(props)
+	splittingProps := criteria_splitting.Spec_Parse(props)
 	return ordering, splittingProps
 }
 
@@ -80,10 +80,10 @@ func Spec_getCriteriaToReverse(
 	criteriaToReverse *model.Criteria,
 	_, currentParams *model.DecisionMakingParams,
 ) *[]criterionToReverse {
-	allAlternatives := currentParams.AllAlternatives()
+	allAlternatives := currentParams.Spec_AllAlternatives()
 	result := make([]criterionToReverse, len(*criteriaToReverse))
 	for i, c := range *criteriaToReverse {
-		valRange := model.CriteriaValuesRange(&allAlternatives, &c)
+		valRange := model.Spec_CriteriaValuesRange(&allAlternatives, &c)
 		result[i] = criterionToReverse{
 			criterion: c,
 			valRange:  valRange,
@@ -96,10 +96,10 @@ func Spec_updateAlternativesWithReversedCriteriaValues(
 	criteriaToReverse *[]criterionToReverse,
 	resParams *model.DecisionMakingParams,
 ) *criterionReversalResult {
-	sortedAlternatives, alternativesValues := reverseCriteriaForEachAlternative(criteriaToReverse, resParams)
+	sortedAlternatives, alternativesValues := Spec_reverseCriteriaForEachAlternative(criteriaToReverse, resParams)
 	return &criterionReversalResult{
-		notConsideredAlternatives: model.UpdateAlternatives(&resParams.NotConsideredAlternatives, sortedAlternatives),
-		consideredAlternatives:    model.UpdateAlternatives(&resParams.ConsideredAlternatives, sortedAlternatives),
+		notConsideredAlternatives: model.Spec_UpdateAlternatives(&resParams.NotConsideredAlternatives, sortedAlternatives),
+		consideredAlternatives:    model.Spec_UpdateAlternatives(&resParams.ConsideredAlternatives, sortedAlternatives),
 		alternativesValues:        alternativesValues,
 	}
 }
@@ -108,26 +108,26 @@ func Spec_reverseCriteriaForEachAlternative(
 	criteriaToReverse *[]criterionToReverse,
 	resParams *model.DecisionMakingParams,
 ) (*[]model.AlternativeWithCriteria, *[]model.Weights) {
-	allAlternatives := resParams.AllAlternatives()
+	allAlternatives := resParams.Spec_AllAlternatives()
 	alternativesValues := make([]model.Weights, len(*criteriaToReverse))
 	for i := range alternativesValues {
 		alternativesValues[i] = make(model.Weights, len(allAlternatives))
 	}
 	for i, a := range allAlternatives {
-		newCriteria := a.Criteria.Copy()
+		newCriteria := a.Criteria.Spec_Copy()
 		for ic, c := range *criteriaToReverse {
-			currentValue := newCriteria.Fetch(c.criterion.Id)
+			currentValue := newCriteria.Spec_Fetch(c.criterion.Id)
 			newValue := c.valRange.Max - currentValue + c.valRange.Min
 			alternativesValues[ic][a.Id] = newValue
 			(*newCriteria)[c.criterion.Id] = newValue
 		}
-		allAlternatives[i] = *a.WithCriteriaValues(newCriteria)
+		allAlternatives[i] = *a.Spec_WithCriteriaValues(newCriteria)
 	}
 	return &allAlternatives, &alternativesValues
 }
 
 func (p *PreferenceReversal) Spec_getCriterionValueRange(originalParams *model.DecisionMakingParams, referenceCriterion *model.Criterion) *utils.ValueRange {
-	allAlternatives := originalParams.AllAlternatives()
-	valRange := model.CriteriaValuesRange(&allAlternatives, referenceCriterion)
+	allAlternatives := originalParams.Spec_AllAlternatives()
+	valRange := model.Spec_CriteriaValuesRange(&allAlternatives, referenceCriterion)
 	return valRange
 }
